@@ -158,8 +158,8 @@ fn mt_model(args: &Args) {
 	let mut rec = Rec::new(&args.out, "c19mt");
 	let scratch = args.out.join("scratch-mt");
 	let _ = std::fs::remove_dir_all(&scratch);
-	let rounds = if args.thorough { 40 } else { 4 };
-	let per_thread = if args.thorough { 400 } else { 120 };
+	let rounds = if args.thorough { 40 } else { 2 };
+	let per_thread = if args.thorough { 400 } else { 80 };
 	for round in 0..rounds {
 		for v2 in [false, true] {
 			let dir = scratch.join(format!("r{}-{}", round, v2 as u8));
